@@ -32,8 +32,8 @@ from common.ctx import ROOT, stable_hash
 from common.shard import ShardResult, run_shards
 
 PID = "C17"
-MODULES = ["Spydr.Names.Model", "Spydr.Names.ModelOld", "Spydr.Names.Spec", "Spydr.Names.Lemmas",
-           "Spydr.Names.Props.C17"]
+MODULES = ["Spydr.Names.Model", "Spydr.Names.ModelOld", "Spydr.Names.ModelObs", "Spydr.Names.Spec",
+           "Spydr.Names.Lemmas", "Spydr.Names.LemmasKey", "Spydr.Names.LemmasPass", "Spydr.Names.Props.C17"]
 THEOREMS = [
     "Spydr.Names.makeValid_legal",
     "Spydr.Names.makeValid_fresh",
@@ -42,6 +42,11 @@ THEOREMS = [
     "Spydr.Names.rename_recorded",
     "Spydr.Names.assign_all_distinct",
     "Spydr.Names.assign_all_scopeOk",
+    # formal record of the open findings: the pinned rules violate the statements (decide-checked witnesses)
+    "Spydr.Names.pinned_violates_scopeOk",
+    "Spydr.Names.pinned_violates_legal_dash",
+    "Spydr.Names.pinned_violates_legal_length",
+    "Spydr.Names.pinned_violates_legal_suffix",
 ]
 
 SCOPES = ["libraries", "definitions", "ports", "cables", "instances"]
@@ -133,6 +138,7 @@ LETTERS = "aAbBxXzZqQ"
 DIGS = "0199"
 SPECIAL = "_-[]/\\ $&.:()+*~!#%',;<=>?@^`{|}"
 QUOTE = '"'
+NONASCII = "\u00e9\u00c9\u00df\u03a9\u6f22\u0663\u00b2"
 
 
 def _rand_name(rng, lo=1, hi=10, quote_p=0.0):
@@ -265,7 +271,13 @@ def gen_input(rng, tier, level=None):
     quote_p = 0.0015
     if level == "free":
         n = rng.choice([1, 2, 2, 3, 3, 4, 5, 6, 8, 12]) if rng.random() < 0.93 else rng.randint(13, 40)
-        return {"level": "free", "scope": rng.choice(SCOPES), "sibs": gen_sibs(rng, n, allow_dup=True, quote_p=quote_p)}
+        sibs = gen_sibs(rng, n, allow_dup=True, quote_p=quote_p)
+        if rng.random() < 0.02:
+            # outside the model's alphabet (oracle only): letters / digits that are not ASCII
+            s = rng.choice(sibs)
+            k = rng.randrange(len(s["name"]) + 1)
+            s["name"] = s["name"][:k] + rng.choice(NONASCII) + s["name"][k:]
+        return {"level": "free", "scope": rng.choice(SCOPES), "sibs": sibs}
     inp = {"level": "netlist", "policy": "DEFAULT"}
     for sc in SCOPES:
         n = rng.choice([1, 2, 3, 4, 6]) if sc != "libraries" else rng.choice([1, 2, 3])
@@ -514,6 +526,7 @@ class Runner:
         self.res = res
         self.drv = drv
         self.tmpdir = tmpdir
+        self.seen = {}
 
     # -- model side ---------------------------------------------------------------------------
     def model_prepass(self, pre, rules=None):
@@ -592,11 +605,19 @@ class Runner:
         sigs = self.check_scope(inp, inp["scope"], inp["sibs"], r["obs"], report)
         if report:
             for sig in sorted(s for s in sigs if s != "corr"):
+                self.res.dist("P.fail." + sig)
+                if not self.first(sig):
+                    continue
                 small = self.shrink_free(inp, sig)
                 d = [f for f in oracle_scope(impl_free(small).get("obs", [])) if f[0] == sig]
                 self.res.spec_failure(sig, small, d[0][2] if d else "")
-                self.res.dist("P.fail." + sig)
         return sigs
+
+    def first(self, sig, cap=2):
+        """shrink + report only the first `cap` occurrences of a signature per shard (the rest is counted)"""
+        n = self.seen.get(sig, 0)
+        self.seen[sig] = n + 1
+        return n < cap
 
     def sigs_free(self, inp):
         r = impl_free(inp)
@@ -681,6 +702,8 @@ class Runner:
                 for sig in sorted(x for x in s if x != "corr"):
                     p_fail = True
                     if report:
+                        self.res.dist("P.fail." + sig)
+                    if report and self.first(sig):
                         small = {"level": "free", "scope": sc if sc in SCOPES else "instances", "sibs": v["pre"]}
                         if sig in self.sigs_free(small):
                             small = self.shrink_free(small, sig)
@@ -688,7 +711,6 @@ class Runner:
                             small = inp
                         f = [x for x in self._last_fails if x[0] == sig]
                         self.res.spec_failure(sig, small, "scope %s: %s" % (sc, f[0][2] if f else ""))
-                        self.res.dist("P.fail." + sig)
                 sigs |= s
             if p_fail:
                 self.res.dist("netlist.reparse-skipped (identifiers already violate P)")
@@ -731,9 +753,10 @@ class Runner:
             if sig:
                 sigs.add(sig)
                 if report:
+                    self.res.dist("P.fail." + sig)
+                if report and self.first(sig):
                     small = inp if "hang" in rr else self.shrink_netlist(inp, sig)
                     self.res.spec_failure(sig, small, detail)
-                    self.res.dist("P.fail." + sig)
             else:
                 self.res.dist("netlist.reparse-ok")
             return sigs
@@ -803,6 +826,8 @@ def tags(res, inp):
             res.dist("namelen.%s" % ("1-3" if len(n) <= 3 else "4-20" if len(n) <= 20 else "21-249" if len(n) < 250 else "250-255" if len(n) <= 255 else "256-300"))
             if _re.search(r"_sdn_[0-9]+_$", n):
                 res.dist("name.has-sdn-suffix")
+            if any(ord(c) > 126 for c in n):
+                res.dist("name.non-ascii (oracle only)")
             if s.get("ident") is not None:
                 res.dist("pre-existing-identifier")
             fl.setdefault(fold(n), []).append(n)
@@ -941,7 +966,7 @@ def run(ctx):
         return
     corpus = load_corpus()
     nsh = 16
-    per = ctx.scale(150, 4000)
+    per = ctx.scale(350, 6000)
     budget = ctx.scale(55, 900)
     deadline = time.time() + min(budget, max(10, ctx.time_left() - 30))
     args = []
